@@ -10,7 +10,8 @@ package hash
 // keys whose String() yields the processor to widen windows), mutators run
 // Add / AddWithWeight / AddWithReplicas / Remove on a small node set — every
 // node belongs to ONE mutator (AddWithReplicas is "Remove, then add" in two
-// critical sections, so concurrent adds of the same node are not judged) —
+// critical sections, so concurrent adds of the same node are not judged in this
+// rule; the same-node rule at the end of the file does that on forced schedules) —
 // including removing the last node and adding it again.
 //
 // Oracle: no panic, no race report; every Get returns
@@ -35,6 +36,7 @@ import (
 	"sync"
 	"sync/atomic"
 	"testing"
+	"time"
 
 	"pgregory.net/rapid"
 	"verif.local/kit"
@@ -472,4 +474,353 @@ func c13rGen(rt *rapid.T) c13rCase {
 
 func TestVerif_C13_race(t *testing.T) {
 	kit.Run(t, "C13", "parallel", kit.Opts{Quick: 150, Thorough: 3200}, c13rGen, c13rInterp)
+}
+
+// ------------------------------------------------------------ same-node rule
+//
+// Concurrent changes of ONE node with different settings, on a generated and
+// deterministic schedule. Every concurrent call gets its own Stringer object of
+// the node's name whose gate-th String() call parks until the harness releases
+// it: gate 1 parks the call before anything happened, gate 2 parks an add-like
+// call between its internal Remove and its insert (AddWithReplicas takes the
+// node's name once for each). The calls are launched one after the other (each
+// runs until it returned or parked), then the parked ones are released in a
+// generated order, each running to its end before the next is released.
+//
+// What the statement determines (the order in which concurrent calls take
+// effect is not determined, so the node's share right after them is not):
+//   - always: no panic, no race report; a lookup returns the node or another
+//     present node of positive weight, and reports absence only if no other
+//     node of positive weight is present;
+//   - after all concurrent calls returned, every SEQUENTIAL closing operation
+//     is an ordinary operation: Remove(node) / a re-add with weight 0 leave no
+//     key on the node, a re-add with another setting replaces ALL previous
+//     virtual nodes of the node. After each closing operation the membership
+//     and every setting are known again, so the map must equal that of a fresh
+//     ring with that membership, the node owns exactly the virtual nodes of the
+//     closing setting (in-package) and keys and ring agree in size.
+
+type c13sCall struct {
+	K string `json:"k"`           // add | addw | addr | rm
+	W int    `json:"w,omitempty"` // weight / replicas
+	G int    `json:"g,omitempty"` // 0 no gate; 1 parks at its first String() call; 2 at its second (between Remove and insert)
+	S bool   `json:"s,omitempty"` // closing operation: pass the node as a plain string (same repr) instead of a Stringer
+}
+
+type c13sCase struct {
+	R      int        `json:"r"`             // <0 NewConsistentHash(), else NewCustomConsistentHash(R, nil)
+	Others []int      `json:"others"`        // weights of the other nodes (plain strings), added first
+	Pre    []c13sCall `json:"pre,omitempty"` // sequential settings of the node before the concurrent phase
+	Calls  []c13sCall `json:"calls"`         // concurrent calls on the node, launched in this order
+	Order  []int      `json:"order"`         // priorities: parked calls are released in ascending Order[i]
+	Close  []c13sCall `json:"close"`         // sequential closing operations on the node
+	KS     int        `json:"ks"`
+}
+
+type c13sNode struct {
+	name    string
+	calls   int32
+	gateAt  int32
+	reached chan struct{}
+	proceed chan struct{}
+}
+
+func (n *c13sNode) String() string {
+	if g := atomic.LoadInt32(&n.gateAt); g > 0 && atomic.AddInt32(&n.calls, 1) == g {
+		close(n.reached)
+		<-n.proceed
+	}
+	return n.name
+}
+
+const c13sWait = 20 * time.Second
+
+func c13sOther(i int) string { return "10.0.0." + strconv.Itoa(21+i) + ":6379" }
+
+const c13sName = "10.0.0.11:6379"
+
+func c13sApply(h *ConsistentHash, o c13sCall, node any) (pan string) {
+	defer func() {
+		if r := recover(); r != nil {
+			pan = fmt.Sprint(r)
+		}
+	}()
+	switch o.K {
+	case "add":
+		h.Add(node)
+	case "addw":
+		h.AddWithWeight(node, o.W)
+	case "addr":
+		h.AddWithReplicas(node, o.W)
+	case "rm":
+		h.Remove(node)
+	}
+	return ""
+}
+
+// c13sIdent: -1 the node, i >= 0 other node i, -2 unknown.
+func c13sIdent(c c13sCase, x any) int {
+	name := ""
+	switch n := x.(type) {
+	case string:
+		name = n
+	case *c13sNode:
+		if n == nil {
+			return -2
+		}
+		name = n.name
+	default:
+		return -2
+	}
+	if name == c13sName {
+		return -1
+	}
+	for i := range c.Others {
+		if c13sOther(i) == name {
+			return i
+		}
+	}
+	return -2
+}
+
+// c13sCheck: lookups against the membership clause; when want != nil also against the reference ring.
+func c13sCheck(c c13sCase, h, want *ConsistentHash, nodeMay bool, what string) string {
+	positiveOthers := 0
+	for _, w := range c.Others {
+		if w > 0 {
+			positiveOthers++
+		}
+	}
+	for i := 0; i < 200; i++ {
+		key := c13rKey(c.KS, i, 0)
+		x, ok := h.Get(key)
+		id := c13sIdent(c, x)
+		switch {
+		case !ok && x != nil:
+			return fmt.Sprintf("%s: Get(%v) returned (%v, false)", what, key, x)
+		case !ok && positiveOthers > 0:
+			return fmt.Sprintf("%s: Get(%v) reports absence although %d other node(s) of positive weight are present", what, key, positiveOthers)
+		case !ok:
+		case id == -2:
+			return fmt.Sprintf("%s: Get(%v) returned %v, not a node of this history", what, key, x)
+		case id == -1 && !nodeMay:
+			return fmt.Sprintf("%s: Get(%v) returned the node %s, which has been removed / re-added with weight 0 after all concurrent calls had returned", what, key, c13sName)
+		case id >= 0 && c.Others[id] <= 0:
+			return fmt.Sprintf("%s: Get(%v) returned %s, which was added with weight 0", what, key, c13sOther(id))
+		}
+		if want != nil {
+			y, wok := want.Get(key)
+			if wok != ok || c13sIdent(c, y) != id {
+				return fmt.Sprintf("%s: Get(%v) = (%v,%v), a fresh ring with the same membership and settings gives (%v,%v)", what, key, x, ok, y, wok)
+			}
+		}
+	}
+	return ""
+}
+
+func c13sInterp(c c13sCase) (v kit.Verdict) {
+	classes := map[string]bool{}
+	defer func() {
+		for k := range classes {
+			v.Classes = append(v.Classes, k)
+		}
+		sort.Strings(v.Classes)
+	}()
+	rc := c13rCase{R: c.R}
+	effR := 100
+	if c.R > 100 {
+		effR = c.R
+	}
+	h := c13rNew(rc)
+	for i, w := range c.Others {
+		h.AddWithWeight(c13sOther(i), w)
+	}
+	for _, o := range c.Pre {
+		if pan := c13sApply(h, o, &c13sNode{name: c13sName}); pan != "" {
+			return v.Failf("sequential %+v panicked: %s", o, pan)
+		}
+	}
+	// concurrent phase
+	n := len(c.Calls)
+	nodes := make([]*c13sNode, n)
+	done := make([]chan string, n)
+	parked := make([]bool, n)
+	stuck := false
+	for i, o := range c.Calls {
+		i, o := i, o
+		nodes[i] = &c13sNode{name: c13sName, gateAt: int32(o.G), reached: make(chan struct{}), proceed: make(chan struct{})}
+		done[i] = make(chan string, 1)
+		go func() { done[i] <- c13sApply(h, c13sCall{K: o.K, W: o.W}, nodes[i]) }()
+		select {
+		case pan := <-done[i]:
+			done[i] <- pan
+		case <-nodes[i].reached:
+			parked[i] = true
+		case <-time.After(c13sWait):
+			stuck = true
+		}
+		if stuck {
+			break
+		}
+	}
+	order := make([]int, 0, n)
+	for i := range c.Calls {
+		if parked[i] {
+			order = append(order, i)
+		}
+	}
+	sort.SliceStable(order, func(a, b int) bool { return c.Order[order[a]] < c.Order[order[b]] })
+	for _, i := range order {
+		if stuck {
+			break
+		}
+		close(nodes[i].proceed)
+		parked[i] = false
+		select {
+		case pan := <-done[i]:
+			done[i] <- pan
+		case <-time.After(c13sWait):
+			stuck = true
+		}
+	}
+	if stuck {
+		// a call neither returned nor reached its gate (it waits for the ring's lock while another
+		// call is parked inside String()): the schedule cannot be realised; not a verdict
+		for i := range nodes {
+			if nodes[i] != nil {
+				atomic.StoreInt32(&nodes[i].gateAt, -1)
+				if parked[i] {
+					close(nodes[i].proceed)
+				}
+			}
+		}
+		v.Excluded = true
+		classes["schedule-not-realisable"] = true
+		return v
+	}
+	for i := range nodes {
+		atomic.StoreInt32(&nodes[i].gateAt, -1) // stored objects must never park a later String() call
+		if pan := <-done[i]; pan != "" {
+			return v.Failf("concurrent call %d %+v panicked: %s", i, c.Calls[i], pan)
+		}
+	}
+	desc := fmt.Sprintf("others %v, before %+v, concurrent calls on %s %+v released in order %v", c.Others, c.Pre, c13sName, c.Calls, order)
+	adds, distinct, overlap := 0, map[int]bool{}, false
+	for i, o := range c.Calls {
+		if o.K != "rm" {
+			adds++
+			distinct[c13rVnodes(c13rOp{K: o.K, W: o.W}, effR)] = true
+			if o.G == 2 {
+				overlap = overlap || n > 1
+			}
+		}
+		_ = i
+	}
+	if adds >= 2 && len(distinct) >= 2 {
+		classes["concurrent-readds:different-settings"] = true
+		if overlap {
+			classes["concurrent-readds:one-parked-between-remove-and-insert"] = true
+		}
+	}
+	if f := c13sCheck(c, h, nil, true, desc+"; right after the concurrent calls"); f != "" {
+		return v.Failf("%s", f)
+	}
+	// sequential closing operations: each one is determined
+	for ci, o := range c.Close {
+		var obj any = &c13sNode{name: c13sName}
+		if o.S {
+			obj = c13sName
+		}
+		what := fmt.Sprintf("%s; closing operation %d %+v", desc, ci, o)
+		if pan := c13sApply(h, o, obj); pan != "" {
+			return v.Failf("%s panicked: %s", what, pan)
+		}
+		fresh := c13rNew(rc)
+		for i, w := range c.Others {
+			fresh.AddWithWeight(c13sOther(i), w)
+		}
+		wantV := c13rVnodes(c13rOp{K: o.K, W: o.W}, effR)
+		if o.K != "rm" {
+			c13sApply(fresh, o, obj)
+		}
+		if f := c13sCheck(c, h, fresh, wantV > 0, what); f != "" {
+			return v.Failf("%s", f)
+		}
+		h.lock.RLock()
+		own, total := 0, 0
+		for _, ns := range h.ring {
+			total += len(ns)
+			for _, x := range ns {
+				if c13sIdent(c, x) == -1 {
+					own++
+				}
+			}
+		}
+		nkeys := len(h.keys)
+		h.lock.RUnlock()
+		if own != wantV || nkeys != total {
+			return v.Failf("%s: the node owns %d virtual nodes (its setting gives %d); %d positions in keys, %d virtual nodes on the ring", what, own, wantV, nkeys, total)
+		}
+		if wantV == 0 {
+			classes["closed-by-remove-or-zero"] = true
+		} else {
+			classes["closed-by-readd"] = true
+		}
+	}
+	v.NonTrivial = classes["concurrent-readds:one-parked-between-remove-and-insert"] && len(c.Close) > 0
+	return v
+}
+
+func c13sDrawCall(rt *rapid.T, effR int, closing bool) c13sCall {
+	var o c13sCall
+	switch rapid.Uint64().Draw(rt, "k") % 8 {
+	case 0, 1:
+		o.K = "add"
+	case 2, 3, 4:
+		o.K, o.W = "addw", []int{0, 1, 10, 30, 50, 70, 100}[rapid.Uint64().Draw(rt, "w")%7]
+	case 5:
+		o.K, o.W = "addr", int(rapid.Uint64().Draw(rt, "r")%uint64(effR+10))
+	default:
+		o.K = "rm"
+	}
+	if closing {
+		o.S = rapid.Bool().Draw(rt, "s")
+		return o
+	}
+	o.G = int(rapid.Uint64().Draw(rt, "g") % 3)
+	if o.K == "rm" && o.G == 2 {
+		o.G = 1
+	}
+	return o
+}
+
+func c13sGen(rt *rapid.T) c13sCase {
+	c := c13sCase{R: -1, KS: rapid.IntRange(0, 1000).Draw(rt, "ks")}
+	if rapid.IntRange(0, 2).Draw(rt, "custom") == 0 {
+		c.R = rapid.IntRange(100, 200).Draw(rt, "r")
+	}
+	effR := 100
+	if c.R > 100 {
+		effR = c.R
+	}
+	c.Others = []int{}
+	for i, no := 0, int(rapid.Uint64().Draw(rt, "others")%4); i < no; i++ {
+		c.Others = append(c.Others, []int{100, 100, 50, 0}[rapid.Uint64().Draw(rt, "ow")%4])
+	}
+	for i, np := 0, int(rapid.Uint64().Draw(rt, "pre")%3); i < np; i++ {
+		c.Pre = append(c.Pre, c13sDrawCall(rt, effR, true))
+	}
+	nc := 2 + int(rapid.Uint64().Draw(rt, "calls")%3)
+	for i := 0; i < nc; i++ {
+		c.Calls = append(c.Calls, c13sDrawCall(rt, effR, false))
+	}
+	c.Order = rapid.Permutation([]int{0, 1, 2, 3}).Draw(rt, "order")[:nc]
+	for i, ncl := 0, 1+int(rapid.Uint64().Draw(rt, "closing")%3); i < ncl; i++ {
+		c.Close = append(c.Close, c13sDrawCall(rt, effR, true))
+	}
+	return c
+}
+
+func TestVerif_C13_samenode(t *testing.T) {
+	kit.Run(t, "C13", "same-node", kit.Opts{Quick: 600, Thorough: 12800}, c13sGen, c13sInterp)
 }
